@@ -1,0 +1,173 @@
+//go:build verif
+
+// Contracts for govc (see /verif/DESIGN.md). Comment-only file: with the
+// build tag off it is not part of the build, with it on it adds no code.
+
+package rendezvous
+
+//@ # period arithmetic: whole-second intervals of at least one second, instants at or after the epoch
+//@ spec func absi(x Int) Int = ite(x < 0, 0 - x, x)
+//@ spec func psecs(iv Int) Int = absi(iv) / 1000000000
+//@ spec func roundns(t Int, iv Int) Int = (((t / 1000000000) / psecs(iv)) * psecs(iv)) * 1000000000
+//@ spec func rvpoint(topic Bytes, seed Bytes, start Int) Bytes =
+//@     hmac_sha256(bcat(topic, seed), be64((start / 1000000000) % 18446744073709551616))
+
+//@ func RoundTimePeriod
+//@   for C17
+//@   safety
+//@   requires absi(interval) >= 1000000000 && absi(interval) % 1000000000 == 0 && tns(date) >= 0
+//@   ensures [C17.round] tns(result) == roundns(tns(date), interval)
+
+//@ func NextTimePeriod
+//@   for C17
+//@   safety
+//@   requires absi(interval) >= 1000000000 && absi(interval) % 1000000000 == 0 && tns(date) >= 0
+//@   ensures [C17.next] tns(result) == roundns(tns(date), interval) + absi(interval)
+
+//@ func GenerateRendezvousPointForPeriod
+//@   for C17
+//@   safety
+//@   ensures [C17.point] bytes(result) == hmac_sha256(bcat(bytes(topic), bytes(seed)), be64((tns(date) / 1000000000) % 18446744073709551616))
+
+//@ func (*Point).TTL
+//@   for C17
+//@   requires p != nil
+//@   ensures result == tns(p.deadline) - now
+
+//@ func (*Point).IsExpired
+//@   for C17
+//@   requires p != nil
+//@   ensures [C17.expired] result <==> now >= tns(p.deadline)
+
+//@ # ---------- the rotation cache ----------
+//@ pred validIv(iv) = absi(iv) >= 1000000000 && absi(iv) % 1000000000 == 0
+//@ pred pstart(r, p) = tns(p.deadline) - absi(r.interval)
+//@ pred pointWF(r, p) = p != nil && p.rp == r && pstart(r, p) >= 0 && pstart(r, p) == roundns(pstart(r, p), r.interval)
+//@     && bytes(p.rotation) == rvpoint(p.topic, bytes(p.seed), pstart(r, p))
+//@ # a cached point is well formed and its period has begun (topics are registered at past instants)
+//@ pred pointOK(r, p) = pointWF(r, p) && pstart(r, p) <= now
+//@ pred cacheOK(r) = r.cacheTopics != nil && r.cacheRotations != nil && r.cacheTopics != r.cacheRotations
+//@     && (forall k Bytes {has(r.cacheTopics, k)} :: has(r.cacheTopics, k) ==> pointOK(r, r.cacheTopics[k]) && r.cacheTopics[k].topic == k
+//@            && has(r.cacheRotations, b64(bytes(r.cacheTopics[k].rotation))))
+//@     && (forall k Bytes {has(r.cacheRotations, k)} :: has(r.cacheRotations, k) ==> pointOK(r, r.cacheRotations[k]) && k == b64(bytes(r.cacheRotations[k].rotation)))
+
+//@ func (*RotationInterval).RoundTimePeriod
+//@   for C17
+//@   requires r != nil && validIv(r.interval) && tns(at) >= 0
+//@   ensures tns(result) == roundns(tns(at), r.interval)
+
+//@ func (*RotationInterval).NextTimePeriod
+//@   for C17
+//@   requires r != nil && validIv(r.interval) && tns(at) >= 0
+//@   ensures tns(result) == roundns(tns(at), r.interval) + absi(r.interval)
+
+//@ func (*RotationInterval).NewRendezvousPointForPeriod
+//@   for C17
+//@   uses C17.round.idempotent
+//@   requires r != nil && validIv(r.interval) && tns(at) >= 0
+//@   ensures [C17.newpoint] fresh(point) && point.rp == r && point.topic == topic && point.seed == seed
+//@     && bytes(point.rotation) == rvpoint(topic, bytes(seed), roundns(tns(at), r.interval))
+//@     && tns(point.deadline) == roundns(tns(at), r.interval) + absi(r.interval)
+
+//@ func (*Point).keys
+//@   for C17
+//@   requires p != nil
+//@   ensures topic == p.topic && rotation == b64(bytes(p.rotation))
+
+//@ func (*Point).NextPoint
+//@   for C17
+//@   uses C17.round.idempotent, C17.round.next, C17.round.bracket
+//@   requires p != nil && p.rp != nil && validIv(p.rp.interval) && pointWF(p.rp, p) && now >= 0
+//@   ensures [C17.nextpoint] fresh(result) && pointWF(p.rp, result) && result.topic == p.topic && bytes(result.seed) == bytes(p.seed)
+//@   ensures [C17.nextpoint.period] now >= tns(p.deadline) ==> pstart(p.rp, result) <= now && now < tns(result.deadline)
+//@   ensures [C17.nextpoint.advance] now < tns(p.deadline) && absi(p.rp.interval) >= 2000000000 ==> pstart(p.rp, result) == tns(p.deadline)
+
+//@ func (*RotationInterval).registerPoint
+//@   for C17
+//@   requires r != nil && cacheOK(r) && pointOK(r, point)
+//@   modifies mapof(r.cacheTopics), mapof(r.cacheRotations)
+//@   ensures [C17.register.inv] cacheOK(r)
+//@   ensures [C17.register.topic] has(r.cacheTopics, point.topic) && r.cacheTopics[point.topic] == point
+//@   ensures [C17.register.rotation] has(r.cacheRotations, b64(bytes(point.rotation))) && r.cacheRotations[b64(bytes(point.rotation))] == point
+//@   ensures [C17.register.keeps] (forall k Bytes {has(r.cacheRotations, k)} :: old(has(r.cacheRotations, k)) ==> has(r.cacheRotations, k))
+//@     && (forall k Bytes {has(r.cacheTopics, k)} :: old(has(r.cacheTopics, k)) ==> has(r.cacheTopics, k))
+
+//@ func (*RotationInterval).rotate
+//@   for C17
+//@   requires r != nil && validIv(r.interval) && cacheOK(r) && pointOK(r, old) && now >= 0 && now >= tns(old.deadline)
+//@   modifies mapof(r.cacheTopics), mapof(r.cacheRotations)
+//@   ensures [C17.rotate.inv] cacheOK(r) && pointOK(r, result) && result.topic == old.topic
+//@   ensures [C17.rotate.registered] has(r.cacheTopics, result.topic) && r.cacheTopics[result.topic] == result
+//@     && has(r.cacheRotations, b64(bytes(result.rotation)))
+//@   ensures [C17.rotate.period] pstart(r, result) <= now && now < tns(result.deadline)
+//@   ensures [C17.rotate.grace] forall k Bytes {has(r.cacheRotations, k)} :: old(has(r.cacheRotations, k)) ==> has(r.cacheRotations, k)
+
+//@ func (*RotationInterval).PointForTopic
+//@   for C17
+//@   requires r != nil && validIv(r.interval) && cacheOK(r) && now >= 0 && unlocked(addr(r.muCache))
+//@   modifies mapof(r.cacheTopics), mapof(r.cacheRotations), lockstate(addr(r.muCache))
+//@   ensures [C17.topic.inv] cacheOK(r) && unlocked(addr(r.muCache))
+//@   ensures [C17.topic.unknown] !old(has(r.cacheTopics, topic)) ==> ret1 != nil
+//@   ensures [C17.topic.resolve] old(has(r.cacheTopics, topic)) ==> ret1 == nil && pointOK(r, ret0) && ret0.topic == topic
+//@     && pstart(r, ret0) <= now && now < tns(ret0.deadline)
+//@     && has(r.cacheRotations, b64(bytes(ret0.rotation)))
+
+//@ func (*RotationInterval).PointForRotation
+//@   for C17
+//@   requires r != nil && validIv(r.interval) && cacheOK(r) && now >= 0 && unlocked(addr(r.muCache))
+//@   modifies mapof(r.cacheTopics), mapof(r.cacheRotations), lockstate(addr(r.muCache))
+//@   ensures [C17.rotation.inv] cacheOK(r) && unlocked(addr(r.muCache))
+//@   ensures [C17.rotation.unknown] !old(has(r.cacheRotations, rotation)) ==> ret1 != nil
+//@   ensures [C17.rotation.resolve] old(has(r.cacheRotations, rotation)) ==> ret1 == nil && pointOK(r, ret0)
+//@     && ret0.topic == old(r.cacheRotations[rotation].topic)
+//@     && pstart(r, ret0) <= now && now < tns(ret0.deadline)
+//@   ensures [C17.rotation.grace] forall k Bytes {has(r.cacheRotations, k)} :: old(has(r.cacheRotations, k)) ==> has(r.cacheRotations, k)
+
+//@ func (*RotationInterval).RegisterRotation
+//@   for C17
+//@   requires r != nil && validIv(r.interval) && cacheOK(r) && tns(at) >= 0 && tns(at) <= now && unlocked(addr(r.muCache))
+//@   uses C17.round.bracket
+//@   modifies mapof(r.cacheTopics), mapof(r.cacheRotations), lockstate(addr(r.muCache))
+//@   ensures [C17.registerrotation] cacheOK(r) && has(r.cacheTopics, topic) && unlocked(addr(r.muCache))
+//@     && pstart(r, r.cacheTopics[topic]) == roundns(tns(at), r.interval)
+//@     && bytes(r.cacheTopics[topic].seed) == bytes(seed)
+
+//@ # The property's rounding facts, as lemmas over roundns (the postcondition of RoundTimePeriod)
+//@ lemma C17.round.bracket: forall t, iv :: absi(iv) >= 1000000000 && absi(iv) % 1000000000 == 0 && t >= 0 ==>
+//@      roundns(t, iv) <= t && t < roundns(t, iv) + absi(iv)
+//@   for C17
+//@ lemma C17.round.idempotent: forall t, iv :: absi(iv) >= 1000000000 && absi(iv) % 1000000000 == 0 && t >= 0 ==>
+//@      roundns(roundns(t, iv), iv) == roundns(t, iv)
+//@   for C17
+//@ lemma C17.round.same_period: forall t, u, iv :: absi(iv) >= 1000000000 && absi(iv) % 1000000000 == 0 && t >= 0 && u >= 0
+//@      && roundns(t, iv) <= u && u < roundns(t, iv) + absi(iv) ==> roundns(u, iv) == roundns(t, iv)
+//@   for C17
+//@ lemma C17.round.next: forall s, iv :: absi(iv) >= 2000000000 && absi(iv) % 1000000000 == 0 && s >= 0 && s == roundns(s, iv) ==>
+//@      roundns(s + absi(iv) + 1000000000, iv) == s + absi(iv)
+//@   for C17
+//@ lemma C17.point.injective: forall t1 Bytes, s1 Bytes, a, t2 Bytes, s2 Bytes, b ::
+//@      blen(s1) == blen(s2) && a >= 0 && b >= 0 && a % 1000000000 == 0 && b % 1000000000 == 0
+//@      && a / 1000000000 < 18446744073709551616 && b / 1000000000 < 18446744073709551616
+//@      && rvpoint(t1, s1, a) == rvpoint(t2, s2, b) ==> t1 == t2 && s1 == s2 && a == b
+//@   for C17
+
+//@ func (*Point).Topic
+//@   for C17
+//@   requires p != nil
+//@   ensures result == p.topic
+//@ func (*Point).RotationTopic
+//@   for C17
+//@   requires p != nil
+//@   ensures result == b64(bytes(p.rotation))
+//@ func (*Point).Deadline
+//@   for C17
+//@   requires p != nil
+//@   ensures result == p.deadline
+
+//@ func NewRotationInterval
+//@   for C17
+//@   ensures [C17.new] fresh(result) && result.interval == interval && cacheOK(result) && unlocked(addr(result.muCache))
+
+//@ lemma C17.agree: forall topic Bytes, seed Bytes, t1, t2, iv :: roundns(t1, iv) == roundns(t2, iv) ==>
+//@      rvpoint(topic, seed, roundns(t1, iv)) == rvpoint(topic, seed, roundns(t2, iv))
+//@   for C17
